@@ -19,10 +19,12 @@ type FullOpts struct {
 	MaxCmds    int
 }
 
-// captureNames collects the `= name` captures declared directly in body (not in
-// globals), in order.
-func captureNames(body []*Node) []string {
+// captureNames collects the `= name` captures declared in body and in the
+// set-patterns it references (they bind at run time like any other capture), in order.
+func captureNames(body []*Node, globals ...Global) []string {
 	var out []string
+	gm := globalsMap(globals)
+	seen := map[string]bool{}
 	var walk func(n *Node)
 	walk = func(n *Node) {
 		if n == nil {
@@ -30,6 +32,12 @@ func captureNames(body []*Node) []string {
 		}
 		if n.K == KCap {
 			out = append(out, n.S)
+		}
+		if n.K == KGlobal && !seen[n.S] {
+			seen[n.S] = true
+			for _, k := range gm[n.S].Body {
+				walk(k)
+			}
 		}
 		for _, k := range n.Kids {
 			walk(k)
@@ -47,6 +55,15 @@ func captureNames(body []*Node) []string {
 func genTransform(t *rapid.T, caps []string) []Stmt {
 	eg := &exprGen{t: t, vars: map[PType][]string{TString: append([]string{"match"}, caps...), TNumber: {"matchLength"}}}
 	stmts := declareVars(eg)
+	// state that must not survive from one with-item (or match) to the next: a
+	// variable read before it is ever assigned (the empty string), and `match` itself
+	if rapid.IntRange(0, 2).Draw(t, "leaky") == 0 {
+		stmts = append(stmts, Stmt{K: "set", Name: "lk", E: Bin("+", Var("lk", TString), Str("k"))})
+		eg.vars[TString] = append(eg.vars[TString], "lk")
+	}
+	if rapid.IntRange(0, 3).Draw(t, "chop") == 0 {
+		stmts = append(stmts, Stmt{K: "set", Name: "match", E: Un("tail", Var("match", TString))})
+	}
 	sg := &stmtGen{eg: eg, t: t, ctx: CtxTransform, loopFuel: 1}
 	depth := rapid.IntRange(1, 3).Draw(t, "tdepth")
 	stmts = append(stmts, sg.WellTyped(rapid.IntRange(0, 3).Draw(t, "tn"), depth, false)...)
@@ -99,7 +116,7 @@ func GenFullProgram(t *rapid.T, o FullOpts) (*Program, []Global, []*Node) {
 	if o.Wide && rapid.IntRange(0, 5).Draw(t, "addregex") == 0 {
 		body = append(body, &Node{K: KRegex, S: rapid.SampledFrom(smallRegexes).Draw(t, "regex")})
 	}
-	caps := captureNames(body)
+	caps := captureNames(body, globals...)
 	cmd := Command{Amount: genAmount(t), Body: body}
 	if rapid.IntRange(0, 2).Draw(t, "replace") == 0 {
 		cmd.Replace = true
